@@ -59,7 +59,7 @@ class UnitRun:
         self.meta = meta          # cmd, wall, cache hits...
 
 
-def run_kani_unit(unit_name, gen, cfg, harness_filter, tier, use_cache=True, jobs=16):
+def run_kani_unit(unit_name, gen, cfg, harness_filter, tier, use_cache=True, jobs=16, repo=None):
     """Generate the crate, run the selected harnesses (content-addressed cache)."""
     outdir = os.path.join(WORK, cfg, unit_name)
     os.makedirs(outdir, exist_ok=True)
@@ -67,7 +67,7 @@ def run_kani_unit(unit_name, gen, cfg, harness_filter, tier, use_cache=True, job
     fcntl.flock(lock, fcntl.LOCK_EX)
     try:
         try:
-            info = gen(REPO, outdir)
+            info = gen(repo or REPO, outdir)
         except AnchorLost as e:
             raise Undecided('extraction anchor lost in unit %s: %s' % (unit_name, e))
         prefix = info.get('prefix', '')
